@@ -384,13 +384,14 @@ func runHandler(c HCase) (msg string, nontrivial bool) {
 					if q == "" {
 						payload, _ = json.Marshal(map[string]string{"query": "prefix="})
 					}
-					if n := conn.Deliver(subj, reply, payload); n != 1 {
-						return fmt.Sprintf("query request on %s not delivered (%d)", subj, n), nontrivial
+					resps, err := rn.QueryResponse(outName(name), subj, reply, payload)
+					if err != nil {
+						return err.Error(), nontrivial
 					}
-					if !waitFor(func() bool { return len(conn.Published(reply)) > 0 }) {
-						return "VERIF-INCONCLUSIVE: no response to a query request within 10s", nontrivial
+					if len(resps) != 1 {
+						return fmt.Sprintf("mutation %d %+v: the query request %s on the query event of %s got %d responses (a callback queued behind it on the resource has run): %q", i, op, payload, name, len(resps), resps), true
 					}
-					data := conn.Published(reply)[0].Data
+					data := resps[0]
 					var p struct {
 						Result *struct {
 							Events            []json.RawMessage
